@@ -1,0 +1,21 @@
+//go:build verif
+
+package helpers
+
+// Contracts for the verifier in /verif (govc). Comment-only.
+
+//@ spec func truthySpec(v Val) bool {
+//@   isNil(v) ? false : isBool(v) ? asBool(v) : isString(v) ? (asString(v) != "" && asString(v) != "false")
+//@   : isInteger(v) ? asInt(v) != 0 : isFloat(v) ? !fpIsZero(v) : true }
+
+//@ func IsTruthy(val) (r)
+//@   pure
+//@   ensures C03.truthy: r == truthySpec(val)
+
+//@ spec func special(c int) bool { c == '&' || c == '<' || c == '>' || c == '"' || c == '\'' }
+
+//@ func NeedsHTMLEscape(s) (r)
+//@   pure
+//@   ensures C01.needs: r <==> exists i int :: 0 <= i && i < len(s) && special(s[i])
+//@   loop 0 invariant bounds: 0 <= i && i <= len(s)
+//@   loop 0 invariant C01.needs.scan: forall j int :: 0 <= j && j < i ==> !special(s[j])
